@@ -2,6 +2,7 @@
 from __future__ import annotations
 
 import ast
+import re
 from fractions import Fraction
 
 from .. import bits as B, codec
@@ -25,7 +26,7 @@ EXPLANATION = (
     " R7 units are created with the number their own ability / names record carries (C09.R5 re-used); R8 the quick-timer duration (no vendor text; divmod arithmetic outside the bit domain) is evaluated by the checker's interpreter on all 1440 whole-minute durations (exact hours/minutes, decodes back), on wrap-around values and on 42 sub-minute witnesses (never later than requested, same in both generations); R9 the frame is written in one piece (C01.R4 re-used)."
 )
 ASSUMPTIONS = ["vendor tables transcribed in sa/spec/tables.py (DESIGN Appendix A) are the oracle", "values outside the vendor's valid ranges are outside the property's quantifier"]
-FLOORS = {"C04.R1": 40, "C04.R2": 30, "C04.R3": 30, "C04.R4": 14, "C04.R5": 6, "C04.R6": 1, "C04.R7": 1, "C04.R8": 7, "C04.R9": 1, "C04.R10": 1, "C04.R11": 1, "C04.R12": 1, "C04.R13": 1}
+FLOORS = {"C04.R1": 40, "C04.R2": 30, "C04.R3": 30, "C04.R4": 14, "C04.R5": 6, "C04.R6": 1, "C04.R7": 1, "C04.R8": 7, "C04.R9": 1, "C04.R10": 1, "C04.R11": 1, "C04.R12": 1, "C04.R13": 1, "C04.R14": 1, "C04.R15": 1}
 
 
 def run(ctx):
@@ -43,6 +44,10 @@ def run(ctx):
     from . import c03, c11
 
     _reuse(ctx, "C04.R10", [c03.r6], "the 0xC0 / 0x1F wrappers announce the lengths of the very message they carry (computed from that message in encode(), nothing remembered from an earlier size() call), so the console finds the record (C03.R6)")
+    _reuse(ctx, "C04.R14", [c11.r3], "each control call puts exactly one frame on the wire, built from the arguments of that call: the setter does not wait before it transmits (no shared pending value, no coalescing) (C11.R3)",
+           keep=lambda o: "one-frame" in o.construct or "suspends-only" in o.construct or o.verdict != "HOLDS")
+    _reuse(ctx, "C04.R15", [c11.r5], "the 'other' quick timer sent along with a timer command is the one the console last reported: the stored timer record is written by update_ac_timer_status only, and update_* is called from the handlers of received frames only (C11.R5)",
+           keep=lambda o: "who-may" in o.construct or o.verdict != "HOLDS")
     _reuse(ctx, "C04.R11", [c11.r4], "the set-point that reaches the wire is the rounded request clamped into [min, max] - the upper bound is the maximum (C11.R4)")
     from . import c14
 
@@ -303,6 +308,9 @@ def r1(ctx, key, spec):
                     attr, vbits, width = ts["value"]
                     if width == "affine10-100":
                         got = [lay.get(p) for p in vbits]
+                        from .common import harmless_clamp as _harmless
+
+                        got = [(g[0], _harmless(g[1]), g[2]) if isinstance(g, tuple) and g[0] == "s" else g for g in got]
                         ok = all(isinstance(g, tuple) and g[0] == "s" and g[1].startswith("lin:") and g[1].endswith(f".{attr}*10+-100") and g[2] == k for k, g in enumerate(got))
                         ctx.check(ok, R, f"{tl}:value", m, enode, f"value byte = int({attr}*10 - 100)", str([_fmt_src(g) for g in got][:3]))
                     else:
